@@ -190,3 +190,21 @@ Example C12_ex_tree :
   | _ => False
   end.
 Proof. vm_compute. reflexivity. Qed.
+(* a span whose own layout is exactly the DFXP default (alignment start / after only) inside a caption that has a layout:
+   the span still gets region="bottom", so its word comes back with the defaults, not with the caption's origin *)
+Example C12_ex_default_span :
+  let s v := mkSize v PCT in
+  let cap := mkLayout (Some (mkPoint (s (20 # 1)) (s (60 # 1)))) None None (Some (mkAlign (Some HCenter) (Some VTop))) None in
+  match write_doc [to_dlang (mkGlang None [mkGcap (Some cap) [GPlain (GWord 1); GSpan true (Some dfxp_default_region) [GWord 2]]])] with
+  | mkXdoc _ [mkXdiv _ [mkXp (Some (RId 0)) [XText 1; XSpan (Some RDefault) [XText 2]]]] => True
+  | _ => False
+  end
+  /\ match dfxp_roundtrip [to_dlang (mkGlang None [mkGcap (Some cap) [GPlain (GWord 1); GSpan true (Some dfxp_default_region) [GWord 2]]])] with
+     | Ok [rl] => match rl_caps rl with
+                  | [rc] => map (fun wl => (fst wl, l_origin (snd wl), l_alignment (snd wl))) (rc_words rc)
+                            = [(1, Some (mkPoint (s (20 # 1)) (s (60 # 1))), Some (mkAlign (Some HCenter) (Some VTop)));
+                               (2, None, Some (mkAlign (Some HStart) (Some VBottom)))]
+                  | _ => False end
+     | _ => False
+     end.
+Proof. split; vm_compute; [exact I|reflexivity]. Qed.
